@@ -334,6 +334,9 @@ class CFGBuilder(AstVisitor[BB | None]):
             raise GuppyError(UnsupportedError(span, "`as` expression", singular=True))
 
         e = node.context_expr
+        # Keyword arguments of modifiers are not supported
+        if isinstance(e, ast.Call) and len(e.keywords) > 0:
+            raise GuppyError(UnsupportedError(e.keywords[0], "Keyword arguments"))
         modifier: Modifier
         match e:
             case ast.Name(id="dagger"):
